@@ -37,8 +37,55 @@ pub fn call_budget(len: usize) -> usize {
     2_000_000 + 5_000 * len
 }
 
+/// The trigger of the known finding `exponential-front-end:input-self-reference`: an input or local
+/// that lies on a reference cycle and mentions inputs / locals of its tx four or more times (each of
+/// the 9 analysis passes multiplies the size of its symbol by the number of mentions: 4^9 copies and
+/// up). Such inputs are measured by the growth probe; in the random phases they are skipped so that
+/// they do not take the worker down.
+pub fn known_blowup_trigger(src: &str, prog: &tx3_lang::ast::Program) -> bool {
+    use std::collections::{BTreeMap, BTreeSet};
+    use tx3_lang::parsing::AstNode;
+    for tx in &prog.txs {
+        let mut text: BTreeMap<String, String> = BTreeMap::new();
+        let slice = |span: &tx3_lang::ast::Span| crate::grammar::strip_comments(src.get(span.start..span.end).unwrap_or(""));
+        if let Some(l) = &tx.locals {
+            for a in &l.assigns {
+                let t = slice(a.span());
+                text.insert(a.name.value.clone(), t.splitn(2, ':').nth(1).unwrap_or("").to_string());
+            }
+        }
+        for i in &tx.inputs {
+            let t = slice(i.span());
+            text.insert(i.name.clone(), t.splitn(2, '{').nth(1).unwrap_or("").to_string());
+        }
+        let names: BTreeSet<String> = text.keys().cloned().collect();
+        let edges: BTreeMap<String, Vec<String>> = text.iter().map(|(n, t)| (n.clone(), crate::grammar::tokenize(t).into_iter().filter(|tok| names.contains(tok)).collect())).collect();
+        // nodes that can reach themselves
+        for n in &names {
+            let mut seen: BTreeSet<&String> = BTreeSet::new();
+            let mut stack: Vec<&String> = edges[n].iter().collect();
+            let mut cyclic = false;
+            while let Some(m) = stack.pop() {
+                if m == n {
+                    cyclic = true;
+                    break;
+                }
+                if seen.insert(m) {
+                    stack.extend(edges[m].iter());
+                }
+            }
+            if cyclic && edges[n].len() >= 4 {
+                return true;
+            }
+        }
+    }
+    false
+}
+
 #[derive(Debug, Clone)]
 pub enum FrontOutcome {
+    /// parsed, but analysis was not run (see `known_blowup_trigger`)
+    SkippedKnownBlowup,
     Parsed { analysis_errors: usize },
     ParseError(String),
     BudgetExceeded,
@@ -59,6 +106,7 @@ pub fn run_front(src: &str) -> (FrontOutcome, Option<tx3_lang::ast::Program>, Op
                 (FrontOutcome::ParseError(e.message.clone()), None, Some(e), None)
             }
         }
+        Ok(Ok(prog)) if known_blowup_trigger(src, &prog) => (FrontOutcome::SkippedKnownBlowup, None, None, None),
         Ok(Ok(mut prog)) => match crate::panics::catch(|| tx3_lang::analyzing::analyze(&mut prog)) {
             Err(p) => (FrontOutcome::Panic(p, "analyze"), None, None, None),
             Ok(report) => (FrontOutcome::Parsed { analysis_errors: report.errors.len() }, Some(prog), None, Some(report)),
@@ -158,6 +206,13 @@ pub const CHAINS: &[Chain] = &[
         s.push_str("}\n");
         s
     } },
+    // an input that mentions itself k = n/2 times in its own fields (each analysis pass copies the
+    // previous symbol into every mention)
+    Chain { name: "input-self-reference", build: |n| {
+        let k = n / 2;
+        let mentions: Vec<String> = (0..k).map(|_| "b".to_string()).collect();
+        format!("party A;\ntx t(q: Int) {{\n  input b {{ from: A, min_amount: Ada(q) + {}, }}\n  output {{ to: A, amount: Ada(q), }}\n}}\n", mentions.join(" + "))
+    } },
     Chain { name: "many-txs", build: |n| {
         let mut s = String::from("party A;\n");
         for i in 0..n { s.push_str(&format!("tx t{i}(q: Int) {{ input s {{ from: A, }} output {{ to: A, amount: s - fees, }} }}\n")); }
@@ -178,7 +233,9 @@ pub fn growth_probe(mut f: impl FnMut(usize)) -> (Vec<(usize, f64)>, bool) {
         times.push((n, dt));
         let k = times.len();
         // three consecutive steps that each at least triple the time, ending above 0.3 s
-        let exponential = k >= 4 && times[k - 1].1 > 0.3 && (1..=3).all(|j| times[k - j].1 >= 3.0 * times[k - j - 1].1);
+        let exponential = (k >= 4 && times[k - 1].1 > 0.3 && (1..=3).all(|j| times[k - j].1 >= 3.0 * times[k - j - 1].1))
+            // or two consecutive steps that each multiply it by >= 8, ending above 1 s
+            || (k >= 3 && times[k - 1].1 > 1.0 && (1..=2).all(|j| times[k - j].1 >= 8.0 * times[k - j - 1].1));
         if exponential {
             return (times, true);
         }
@@ -197,6 +254,7 @@ impl C12 {
         let (o, _, _, _) = run_front(src);
         let detail = |what: serde_json::Value| json!({"origin": origin, "construct": construct, "source": src.chars().take(4000).collect::<String>(), "source_len": src.len(), "observed": what});
         match o {
+            FrontOutcome::SkippedKnownBlowup => ctx.count("skipped/known-blowup-trigger"),
             FrontOutcome::Parsed { analysis_errors } => {
                 ctx.count("outcome/parsed");
                 if analysis_errors == 0 {
@@ -221,7 +279,7 @@ impl Property for C12 {
         "C12"
     }
     fn rule(&self) -> String {
-        "growth: 7 families of programs whose length grows linearly with n (chains of aliases / records / locals / inputs that name the previous definition twice, many outputs reading one input, many txs) are parsed and analysed for n = 4, 6, .. 40 and the thread CPU time must not triple twice in a row per step of 2; grammar: random expansions (depth <= 12, implicit whitespace / comments between tokens of non-atomic rules) of tx3.pest itself, read with pest_meta at run time, so every rule the grammar accepts is exercised; mutation: 12 token-level mutators (delete, duplicate, swap, splice, numeral / hex stretching, multi-byte insertion, keyword / punctuation replacement, truncation, block duplication, renaming) applied 1..3 times to the example corpus and to generated programs; nesting (exhaustive): 30 recursive constructs x depth 1..64. Oracle: parse_string returns Ok or Err and analyze returns, observed through the panic hook / worker signals / watchdog; termination of the parser is decided on logical steps (pest call limit 2e6 + 5000 per input byte; the valid corpus needs ~5 calls per byte). Non-trivial: the input parses, or fails beyond its first line; distinct = distinct input texts.".into()
+        "growth: 8 families of programs whose length grows linearly with n (chains of aliases / records / locals / inputs that name the previous definition twice, many outputs reading one input, many txs) are parsed and analysed for n = 4, 6, .. 40 and the thread CPU time must not triple twice in a row per step of 2; grammar: random expansions (depth <= 12, implicit whitespace / comments between tokens of non-atomic rules) of tx3.pest itself, read with pest_meta at run time, so every rule the grammar accepts is exercised; mutation: 12 token-level mutators (delete, duplicate, swap, splice, numeral / hex stretching, multi-byte insertion, keyword / punctuation replacement, truncation, block duplication, renaming) applied 1..3 times to the example corpus and to generated programs; nesting (exhaustive): 30 recursive constructs x depth 1..64. Oracle: parse_string returns Ok or Err and analyze returns, observed through the panic hook / worker signals / watchdog; termination of the parser is decided on logical steps (pest call limit 2e6 + 5000 per input byte; the valid corpus needs ~5 calls per byte). Non-trivial: the input parses, or fails beyond its first line; distinct = distinct input texts.".into()
     }
     fn assumptions(&self) -> Vec<String> {
         vec![
